@@ -102,6 +102,7 @@ class Fam(progcheck.Family):
 
 
 FAMILY = Fam(PID, "compare", "compare-run", "h_compare", ["h_compare.cpp"], body_prefixes=("xop ",))
+# (xshare / xroot / xdata lines are structural: the shrinker only drops xop lines)
 FAMILY.monitor = lambda impl, obs: monitor(getattr(FAMILY, "raw", impl), obs)
 
 
@@ -161,7 +162,7 @@ def run(tier, seed, replay=None):
     count = 4000 if tier == "quick" else 80000
     prog_c = fam.corpus()
     obs_c = fam.model_run(prog_c) if prog_c else ""
-    prog_g, obs_g, dist = fam.generate(seed, count, prefix="c", extra=(["--has-ge"] if has_ge else []) + (["--rank0"] if has_rank0 else []))
+    prog_g, obs_g, dist = fam.generate(seed, count, prefix="c", extra=(["--has-ge"] if has_ge else []) + (["--rank0"] if has_rank0 else []) + ["--alias"])
     obs_g = normalise(obs_g, empties(obs_g))
     prog_text, obs_text = prog_c + prog_g, obs_c + obs_g
     impl_text, crashes = fam.impl_run(prog_text)
